@@ -156,7 +156,7 @@ theorem open_conns_are_tracked (k : Kind) (ops : List Op) :
 theorem late_dial_closed (k : Kind) (ops : List Op) (d : Nat)
     (hc : (run (init k) ops).closed = true) (hd : (run (init k) ops).hasDial d = true) :
     let s' := step (run (init k) ops) (.dialOk d)
-    (⟨d, false, false, false⟩ : Conn) ∈ s'.conns ∧
+    (⟨d, false, false, false, 0⟩ : Conn) ∈ s'.conns ∧
     (∀ c ∈ s'.conns, c.isOpen = false) ∧
     s'.hasDial d = false ∧
     (∀ x ∈ s'.exs, x.loc ≠ .dial d) ∧
@@ -178,7 +178,7 @@ theorem late_dial_closed (k : Kind) (ops : List Op) (d : Nat)
 /-- non-vacuity: a reachable closed state with a pending (stubborn) dial, and the late dial's connection. -/
 example : (run (init .reuse) [.start 1 true, .close]).closed = true ∧
     (run (init .reuse) [.start 1 true, .close]).hasDial 1 = true ∧
-    (run (init .reuse) [.start 1 true, .close, .dialOk 1]).conns = [⟨1, false, false, false⟩] ∧
+    (run (init .reuse) [.start 1 true, .close, .dialOk 1]).conns = [⟨1, false, false, false, 0⟩] ∧
     (run (init .reuse) [.start 1 true, .close, .dialOk 1]).exs = [⟨1, some .err, .none⟩] := by decide
 
 /-- ★ an exchange that starts after Close fails at once: it gets an error, dials nothing and touches no
@@ -201,17 +201,7 @@ theorem close_fails_in_flight (k : Kind) (ops : List Op) :
     exact closeOp_closed _
   obtain ⟨⟨d, hd, hl⟩, hk⟩ := hinv.closedBlocked hc x hx hn
   refine ⟨⟨d, hd, hl, hinv.closedDials hc d hd⟩, ?_⟩
-  have hkind : ∀ (s0 : St) (l : List Op), (run s0 l).kind = s0.kind := by
-    intro s0 l
-    induction l generalizing s0 with
-    | nil => rfl
-    | cons op rest ih =>
-      simp only [run, List.foldl_cons] at ih ⊢
-      rw [ih]
-      cases op <;> simp only [step, startOp, dialOkOp, dialErrOp, replyOp, cancelOp, timerOp, closeOp] <;>
-        repeat' split
-      all_goals rfl
-  have : s.kind = k := hkind (init k) (ops ++ [.close])
+  have : s.kind = k := run_kind (init k) (ops ++ [.close])
   simpa [this] using hk
 
 /-- ★ nothing hangs: once the transport is closed and no dial is pending any more, every exchange has
@@ -246,6 +236,57 @@ theorem no_success_after_close (k : Kind) (ops : List Op) (op : Op)
 /-- non-vacuity / sanity of the model: Close during an exchange fails it, a reply before Close succeeds. -/
 example : (run (init .pipe) [.start 1 false, .dialOk 1, .close]).exs = [⟨1, some .err, .none⟩] := by decide
 example : (run (init .quic) [.start 1 false, .dialOk 1, .reply 1, .close]).exs = [⟨1, some .ok, .none⟩] := by decide
+
+/-! ### wire-id exhaustion of a pipelined connection -/
+
+/-- a pipelined connection whose wire ids are used up is never picked again -/
+theorem exhausted_conn_not_picked (c : Conn) (h : usable .pipe c = true) : 0 < c.left := by
+  simp only [usable, Bool.and_eq_true, Bool.or_eq_true, decide_eq_true_eq] at h
+  rcases h.2 with h | h
+  · exact absurd h (by decide)
+  · exact h
+
+/-- the self-close of an exhausted connection only hits connections without a query in flight: whatever
+    `sweep` closes was closed already, or had no ids left and nobody waiting on it. -/
+theorem sweep_closes_only_idle_exhausted (s : St) :
+    ∀ c ∈ (sweep s).conns, c.isOpen = false →
+      ∃ c0 ∈ s.conns, c0.id = c.id ∧
+        (c0.isOpen = false ∨
+          (c0.left = 0 ∧ ∀ x ∈ s.exs, x.res = none → x.loc ≠ .conn c0.id)) := by
+  intro c hc ho
+  unfold sweep at hc
+  split at hc
+  · simp only [List.mem_map] at hc
+    obtain ⟨c0, hc0, rfl⟩ := hc
+    refine ⟨c0, hc0, ?_, ?_⟩
+    · split <;> rfl
+    · split at ho
+      · rename_i hcond
+        right
+        simp only [Bool.and_eq_true, decide_eq_true_eq, Bool.not_eq_true', List.any_eq_false] at hcond
+        refine ⟨hcond.1, ?_⟩
+        intro x hx hn hl
+        exact hcond.2 x hx ⟨by simp [hn], by simp [hl]⟩
+      · exact Or.inl ho
+  · exact ⟨c, hc, rfl, Or.inl ho⟩
+
+/-- non-vacuity: the history of the seeded defect is reachable in the model — one connection, 65534 ids burnt,
+    the last two taken by unanswered queries, a further exchange has to dial, one caller gives up: the exhausted
+    connection is still open AND tracked (`open_conns_are_tracked`), so Close closes it and fails its caller. -/
+example :
+    (run (init .pipe) [.start 1 false, .dialOk 1, .reply 1, .burn 2, .start 2 false, .start 3 false,
+        .start 4 false, .cancel 2]).conns = [⟨1, true, true, false, 0⟩] ∧
+    (run (init .pipe) [.start 1 false, .dialOk 1, .reply 1, .burn 2, .start 2 false, .start 3 false,
+        .start 4 false, .cancel 2, .close]).conns = [⟨1, false, true, false, 0⟩] ∧
+    (run (init .pipe) [.start 1 false, .dialOk 1, .reply 1, .burn 2, .start 2 false, .start 3 false,
+        .start 4 false, .cancel 2, .close]).exs =
+      [⟨1, some .ok, .none⟩, ⟨2, some .ctx, .none⟩, ⟨3, some .err, .none⟩, ⟨4, some .err, .none⟩] := by
+  decide
+
+/-- and an exhausted connection closes itself once its last query is answered -/
+example :
+    (run (init .pipe) [.start 1 false, .dialOk 1, .reply 1, .burn 1, .start 2 false, .reply 2]).conns
+      = [⟨1, false, true, false, 0⟩] := by decide
 
 /-- ★ the model meets the executable specification that judges the implementation's observations (every
     Close returns, also the repeated ones; no exchange is left hanging; exchanges started after the Close fail;
@@ -358,6 +399,23 @@ theorem pins_close :
     Facts.c18_trackerTrack = "{ t.m.Lock() defer t.m.Unlock() if t.closed { c.Close() return nil, transport.ErrClosedTransport } tc := &trackedConn{Conn: c, t: t} t.conns[tc] = struct{}{} return tc, nil }" ∧
     Facts.c18_udpServerClose = "{ s.closeOnce.Do(func() { s.closed.Store(true) for _, c := range s.cs { c.c.Close() } }) return nil }" ∧
     Facts.c18_upCloserClose = "{ err := u.Transport.Close() u.closer.Close() return err }" := by
+  (repeat' apply And.intro) <;> rfl
+
+/-- Wire-id exhaustion and dials in progress, in the source: `Status()` reports a pipelined connection as closed
+    only when it IS closed (the pool forgets — without closing — what reports closed), it stops being available
+    when its 65536 ids are used, and it closes itself when the last query of an exhausted connection is done;
+    the TLS handshake of a tls:// dial and the QUIC handshakes follow the dial context, and the dial contexts of
+    the reuse and quic transports derive from the transport's context that Close cancels. -/
+theorem pins_exhaustion_and_dials :
+    Facts.c18_pipeStatus = "{ c.m.RLock() defer c.m.RUnlock() s.Closed = c.closed s.Available = c.nextQid+c.reserved <= 65535 return s }" ∧
+    Facts.c18_pipeEol = "eol := c.nextQid > 65535 && len(c.queue) == 0" ∧
+    Facts.c18_pipeAddQueueEol = "c.nextQid > 65535" ∧
+    Facts.c18_tlsHandshake = "err := tlsConn.HandshakeContext(ctx)" ∧
+    Facts.c18_tlsHandshakeCount = 1 ∧
+    Facts.c18_h3DialEarly = "return quicTransport.DialEarly(ctx, ua, tlsCfg, cfg)" ∧
+    Facts.c18_quicDialEarly = "ec, err := t.DialEarly(ctx, ua, tlsConfig, quicConfig)" ∧
+    Facts.c18_reuseDialCtx = "dialCtx, cancelDial := context.WithTimeout(t.ctx, t.dialTimeout())" ∧
+    Facts.c18_quicDialCtx = "ctx, cancel := context.WithTimeout(t.ctx, t.dialTimeout())" := by
   (repeat' apply And.intro) <;> rfl
 
 end MosVerif.C18
